@@ -108,6 +108,10 @@ func c29Gen(rng *rand.Rand, tier string) []Case {
 			out = append(out, Case{ID: fmt.Sprintf("l%d", i), Ops: ops, Nontrivial: nt, Tags: []string{"logwriter"}})
 		}
 	}
+	for i := 0; i < nConc/3+1; i++ {
+		out = append(out, Case{ID: fmt.Sprintf("rr%d", i), Ops: []string{fmt.Sprintf("grounds %d %d %d", 2+rng.Intn(6), 2000, rng.Int63())},
+			Nontrivial: true, Tags: []string{"gated-rounds"}})
+	}
 	for i := 0; i < nConc; i++ {
 		out = append(out, Case{ID: fmt.Sprintf("c%d", i),
 			Ops:        []string{fmt.Sprintf("gconc %d %d %d %d", 2+rng.Intn(7), 20+rng.Intn(200), 20+rng.Intn(200), rng.Int63())},
@@ -145,6 +149,10 @@ func c29Exec(ops []string) []string {
 			n1, _ := strconv.Atoi(f[2])
 			n2, _ := strconv.Atoi(f[3])
 			outs = append(outs, c29Conc(w, n1, n2))
+		case len(f) == 4 && f[0] == "grounds":
+			w, _ := strconv.Atoi(f[1])
+			rounds, _ := strconv.Atoi(f[2])
+			outs = append(outs, c29Rounds(w, rounds))
 		case len(f) == 2 && f[0] == "lnew":
 			c, err := strconv.Atoi(f[1])
 			if err != nil || c < 1 {
@@ -235,6 +243,51 @@ func c29Conc(w, n1, n2 int) string {
 	sink.mu.Lock()
 	defer sink.mu.Unlock()
 	return "out " + strings.Join(sink.lines, ",")
+}
+
+// c29Rounds: many tiny races of a few writers against the gate opening: in every round a fresh
+// GatedWriter, w writers writing 3 lines each and one Flush, all released together; afterwards a final
+// Flush.  Every line must reach the sink exactly once.
+func c29Rounds(w, rounds int) string {
+	lost, dup := 0, 0
+	for r := 0; r < rounds; r++ {
+		sink := &c29Sink{}
+		gw := &agent.GatedWriter{Writer: sink}
+		var wg sync.WaitGroup
+		start := make(chan struct{})
+		for t := 0; t < w; t++ {
+			wg.Add(1)
+			go func(t int) {
+				defer wg.Done()
+				<-start
+				for i := 0; i < 3; i++ {
+					_, _ = gw.Write([]byte(fmt.Sprintf("%d.%d", t, i)))
+				}
+			}(t)
+		}
+		wg.Add(1)
+		go func() { defer wg.Done(); <-start; gw.Flush() }()
+		close(start)
+		wg.Wait()
+		gw.Flush()
+		seen := map[string]int{}
+		sink.mu.Lock()
+		for _, l := range sink.lines {
+			seen[l]++
+		}
+		sink.mu.Unlock()
+		for t := 0; t < w; t++ {
+			for i := 0; i < 3; i++ {
+				switch n := seen[fmt.Sprintf("%d.%d", t, i)]; {
+				case n == 0:
+					lost++
+				case n > 1:
+					dup++
+				}
+			}
+		}
+	}
+	return fmt.Sprintf("lost=%d dup=%d", lost, dup)
 }
 
 func init() {
